@@ -49,24 +49,38 @@ IoOK(T, readM, tps) == FloorOK(T, BNProd(<<readM, tps>>), BNFromInt(20000))
 IoBand(T, readM, tps) == ExactlyOn(T, BNProd(<<readM, tps>>), BNFromInt(20000))
 
 Sq(x) == BNMul(x, x)
-\* CPU ticks: floor(base/scale(law, cpus) * tps), base = bnum/bden seconds
-CpuOK(T, law, cpus, bnum, bden, tps) ==
-  CASE law \in RationalLaws -> FloorOK(T, BNProd(<<bnum, tps>>), BNProd(<<bden, Divisor(law, cpus)>>))
-    [] law = "sqrt" ->    \* T <= X/sqrt(c) < T+1  <=>  T^2 c bden^2 <= (bnum tps)^2 < (T+1)^2 c bden^2
-         /\ T >= 0
-         /\ BNLe(BNMul(Sq(BNFromInt(T)), BNMul(BNFromInt(cpus), Sq(BNFromInt(bden)))), Sq(BNProd(<<bnum, tps>>)))
-         /\ BNLt(Sq(BNProd(<<bnum, tps>>)), BNMul(Sq(BNFromInt(T + 1)), BNMul(BNFromInt(cpus), Sq(BNFromInt(bden)))))
-    [] law = "log" ->     \* T <= X/(ln c + 1) < T+1, decided with the bounds of LnTable: "possibly true"
-         /\ T >= 0 /\ cpus \in 1..LnMax
-         /\ BNLe(BNMul(BNProd(<<T, bden>>), BNAdd(LnLo[cpus], LnScale)), BNMul(BNProd(<<bnum, tps>>), LnScale))
-         /\ BNLt(BNMul(BNProd(<<bnum, tps>>), LnScale), BNMul(BNProd(<<T + 1, bden>>), BNAdd(LnHi[cpus], LnScale)))
+\* CPU counts may be fractional (a scheduler may request 2.5 cpus): the closed form takes c2 = 2 * cpus (half-integer grid).
+\* scale(law, cpus) as a rational <<n, d>> where it is rational
+HalfInt(c2) == c2 % 2 = 1
+Scale2(law, c2) ==
+  CASE law = "const"   -> <<1, 1>>
+    [] law = "linear3" -> IF c2 < 6 THEN <<c2, 2>> ELSE <<3, 1>>
+    [] law = "linear7" -> IF c2 < 14 THEN <<c2, 2>> ELSE <<7, 1>>
+    [] law = "squared" -> <<c2 * c2, 4>>
+    [] law = "exp"     -> IF c2 >= 8 THEN <<16, 1>> ELSE <<Pow2(c2 \div 2), 1>>        \* even c2 only; odd c2 < 8 is 2^(k+1/2), handled below
+Rational2(law, c2) == law \in {"const", "linear3", "linear7", "squared"} \/ (law = "exp" /\ (~HalfInt(c2) \/ c2 >= 8))
+\* X = bnum*tps/bden;  ticks = floor(X / scale)
+\* irrational scales as "T^2 * K <= X^2 * L < (T+1)^2 * K":   sqrt: scale^2 = c2/2 -> K = c2 * bden^2, L = 2;   exp, c = k+1/2: scale^2 = 2^(2k+1) -> K = 2^(2k+1) * bden^2, L = 1
+SqK(law, c2, bden) == IF law = "sqrt" THEN BNMul(BNFromInt(c2), Sq(BNFromInt(bden))) ELSE BNMul(BNFromInt(2 * Pow2(c2 \div 2) * Pow2(c2 \div 2)), Sq(BNFromInt(bden)))
+SqL(law) == IF law = "sqrt" THEN BNFromInt(2) ELSE BNFromInt(1)
+CpuOK(T, law, c2, bnum, bden, tps) ==
+  IF Rational2(law, c2)
+  THEN FloorOK(T, BNProd(<<bnum, tps, Scale2(law, c2)[2]>>), BNProd(<<bden, Scale2(law, c2)[1]>>))
+  ELSE IF law \in {"sqrt", "exp"}
+  THEN /\ T >= 0
+       /\ BNLe(BNMul(Sq(BNFromInt(T)), SqK(law, c2, bden)), BNMul(Sq(BNProd(<<bnum, tps>>)), SqL(law)))
+       /\ BNLt(BNMul(Sq(BNProd(<<bnum, tps>>)), SqL(law)), BNMul(Sq(BNFromInt(T + 1)), SqK(law, c2, bden)))
+  ELSE     \* log (whole cpu counts only): T <= X/(ln c + 1) < T+1, decided with the bounds of LnTable: "possibly true"
+       /\ T >= 0 /\ ~HalfInt(c2) /\ (c2 \div 2) \in 1..LnMax
+       /\ BNLe(BNMul(BNProd(<<T, bden>>), BNAdd(LnLo[c2 \div 2], LnScale)), BNMul(BNProd(<<bnum, tps>>), LnScale))
+       /\ BNLt(BNMul(BNProd(<<bnum, tps>>), LnScale), BNMul(BNProd(<<T + 1, bden>>), BNAdd(LnHi[c2 \div 2], LnScale)))
 \* may the float evaluation legitimately give T-1 ?  (exactly on the boundary; for log: within the table's uncertainty)
-CpuBandLo(T, law, cpus, bnum, bden, tps) ==
-  CASE law \in RationalLaws -> ExactlyOn(T, BNProd(<<bnum, tps>>), BNProd(<<bden, Divisor(law, cpus)>>))
-    [] law = "sqrt" -> T >= 1 /\ BNCmp(BNMul(Sq(BNFromInt(T)), BNMul(BNFromInt(cpus), Sq(BNFromInt(bden)))), Sq(BNProd(<<bnum, tps>>))) = 0
-    [] law = "log" -> T >= 1 /\ ~BNLt(BNMul(BNProd(<<T, bden>>), BNAdd(LnHi[cpus], LnScale)), BNMul(BNProd(<<bnum, tps>>), LnScale))
-CpuBandHi(T, law, cpus, bnum, bden, tps) ==
-  law = "log" /\ ~BNLt(BNMul(BNProd(<<bnum, tps>>), LnScale), BNMul(BNProd(<<T + 1, bden>>), BNAdd(LnLo[cpus], LnScale)))
+CpuBandLo(T, law, c2, bnum, bden, tps) ==
+  IF Rational2(law, c2) THEN ExactlyOn(T, BNProd(<<bnum, tps, Scale2(law, c2)[2]>>), BNProd(<<bden, Scale2(law, c2)[1]>>))
+  ELSE IF law \in {"sqrt", "exp"} THEN T >= 1 /\ BNCmp(BNMul(Sq(BNFromInt(T)), SqK(law, c2, bden)), BNMul(Sq(BNProd(<<bnum, tps>>)), SqL(law))) = 0
+  ELSE T >= 1 /\ ~BNLt(BNMul(BNProd(<<T, bden>>), BNAdd(LnHi[c2 \div 2], LnScale)), BNMul(BNProd(<<bnum, tps>>), LnScale))
+CpuBandHi(T, law, c2, bnum, bden, tps) ==
+  law = "log" /\ ~BNLt(BNMul(BNProd(<<bnum, tps>>), LnScale), BNMul(BNProd(<<T + 1, bden>>), BNAdd(LnLo[c2 \div 2], LnScale)))
 
 \* memory demand comparisons, in milli-GB against an allocation ramM; growth (i+1)*20/tps GB in I/O tick i
 GrowGt(i, tps, ramM) == ProdCmp(<<i + 1, 20000>>, <<ramM, tps>>) = 1      \* demand at I/O tick i  >  allocation
